@@ -18,6 +18,12 @@ def main():
             ann = pickle.loads(base64.b64decode(b64))
             h, vec = c20.vec_hash(ann)
             res[jid] = {"hash": h, "vec": vec}
+            # second hop: what arrived here is serialised again with plain pickle and loaded back
+            try:
+                again = pickle.loads(pickle.dumps(ann))
+                res[jid]["hop2"] = c20.vec_hash(again)[0]
+            except Exception as e:  # noqa
+                res[jid]["hop2"] = f"raised {type(e).__name__}: {str(e)[:100]}"
         except Exception as e:  # noqa
             res[jid] = {"error": f"{type(e).__name__}: {str(e)[:200]}"}
     print(json.dumps(res))
